@@ -167,7 +167,7 @@ let f32_of_bits_cached (b : string) : F32.t =
 (* one case, generic in the cell type *)
 let run_case (type c) ~(fmt : string) ~(mode : string) ~(get : string -> string option) ~(obs_field : string -> string option)
     ~(k : int) ~(cell : string -> c) ~(ceqb : c -> c -> bool) ~(zero : c) ~(value : n list -> c)
-    ~(alphabet : alphabet)
+    ~(alphabet : alphabet) ~(wf_extra : (style * src) list -> n list -> n list -> bool)
     ~(model_stop : n list list -> c outcome list) ~(model_calls : int -> n list list -> c outcome list) : string =
   let verdict = ref "OK" in
   let set v = if !verdict = "OK" then verdict := v in
@@ -186,7 +186,7 @@ let run_case (type c) ~(fmt : string) ~(mode : string) ~(get : string -> string 
            let ok = match fmt with
              | "jaspar" -> List.for_all wf_jaspar rs
              | "jaspar16" -> List.for_all (wf_jaspar16 alphabet) rs
-             | _ -> true in
+             | _ -> wf_extra rs pre suf in
            if not (ok && (fmt = "uniprobe" || wf_prefix pre) && wf_suffix suf) then set "DIFF generator-output-not-wf"
          end);
         string_of_bytes (print_file pr pre rs suf)
@@ -283,6 +283,7 @@ let () =
                 let alphabet = if fmt = "jaspar" then dna else alphabet in
                 run_case ~fmt ~mode ~get ~obs_field ~k
                   ~cell:(fun s -> n_of_int (int_of_string s)) ~ceqb:N.eqb ~zero:N0 ~value:dec_value ~alphabet
+                  ~wf_extra:(fun _ _ _ -> true)
                   ~model_stop:(fun cs -> if fmt = "jaspar" then jaspar_read caps cs else jaspar16_read alphabet caps cs)
                   ~model_calls:(fun n cs -> j_calls precord (nat_of_int n) caps cs)
             | "uniprobe" ->
@@ -300,6 +301,10 @@ let () =
                 let value tok = match parse_f32 tok with Some b -> b | None -> F32.zero in
                 run_case ~fmt ~mode ~get ~obs_field ~k
                   ~cell:f32_of_bits_cached ~ceqb:(fun (a : F32.t) b -> a = b) ~zero:F32.zero ~value ~alphabet
+                  (* the hypotheses of reader_roundtrip_uniprobe hold for what the generator printed (files with a
+                     white-space suffix are outside the theorem: checked against the model only) *)
+                  ~wf_extra:(fun rs pre suf ->
+                      suf <> [] || (List.for_all (wf_uniprobe alphabet parse_f32) rs && wf_blank_prefix pre))
                   ~model_stop:(fun cs -> uniprobe_read alphabet parse_f32 cs)
                   ~model_calls:(fun n cs -> uniprobe_calls alphabet parse_f32 false (nat_of_int n) cs)
             | _ -> "OK"   (* a case of another group *)
